@@ -122,48 +122,88 @@ def generate(qualname: str, registry: dict, specfuns: dict, engine_cls=None, mut
     return res, jobs
 
 
-def _gen_worker(args):
+def _aggregate(res: FuncResult, jobs, verdicts):
+    smt = dict(jobs)
+    for ob in res.obligations:
+        vs = [(k, verdicts[k]) for k in verdicts if k[1] == ob.oid]
+        ob.seconds = sum(v[2] for _, v in vs)
+        if ob.kind == "COVER":
+            ob.verdict = "failed"  # a COVER obligation is only ever emitted when the cover failed
+            continue
+        if any(v[0] == "sat" for _, v in vs):
+            ob.verdict = "failed"
+            k, v = next((k, v) for k, v in vs if v[0] == "sat")
+            ob.model, ob.solver, ob.smt2 = v[3], v[1], smt[k]
+        elif all(v[0] == "unsat" for _, v in vs):
+            ob.verdict = "discharged"
+            ob.solver = ",".join(sorted({v[1] for _, v in vs})) or "trivial"
+        else:
+            ob.verdict = "undecided"
+            ob.solver = "z3+cvc5"
+
+
+def _verify_one(args):
+    """generate + discharge one function; when an invariant conjunct is refuted, try to re-establish the proof
+    without it (Houdini, DESIGN.md 2.7) so that the property-bearing obligation that depended on it shows."""
     qualname, contracts_mod = args
+    import copy
     import importlib
 
     mod = importlib.import_module(contracts_mod)
-    res, jobs = generate(qualname, mod.REGISTRY, mod.SPECFUNS, getattr(mod, "ENGINE", None))
-    return res, jobs
+    registry = mod.REGISTRY
+    dropped = []
+    for _round in range(8):
+        res, jobs = generate(qualname, registry, mod.SPECFUNS, getattr(mod, "ENGINE", None))
+        verdicts = solve.discharge(jobs, workers=1)
+        _aggregate(res, jobs, verdicts)
+        bad = [ob for ob in res.obligations if ob.kind in ("INV-init", "INV-pres") and ob.verdict == "failed"]
+        if not bad or res.status != "ok":
+            break
+        first_round_bad = bad if _round == 0 else first_round_bad
+        registry = dict(registry)
+        c = copy.deepcopy(registry[qualname])
+        changed = False
+        for ob in bad:
+            m = re.match(r"loop#(\d+)/(.+)$", ob.site)
+            if not m:
+                continue
+            k, label = int(m.group(1)), m.group(2)
+            lc = c.loops.get(k)
+            if lc and any(l == label for l, _ in lc["inv"]):
+                lc["inv"] = [(l, e) for l, e in lc["inv"] if l != label]
+                dropped.append((ob.oid, ob.model, ob.smt2, ob.solver, ob.seconds))
+                changed = True
+        if not changed:
+            break
+        registry[qualname] = c
+    if dropped:
+        res.dropped = dropped
+        # the refuted auxiliary obligations stay in the result (as failed) unless the proof was re-established
+        still_failing = any(ob.verdict != "discharged" for ob in res.obligations)
+        if still_failing:
+            have = {ob.oid for ob in res.obligations}
+            for oid, model, smt2, solver, secs in dropped:
+                if oid in have:
+                    continue
+                parts = oid.split("/")
+                ob = Obligation(oid=oid, kind=parts[-3] if parts[-3].startswith("INV") else "INV-pres", func=qualname, site="/".join(parts[-2:]), smt2=smt2)
+                ob.verdict, ob.model, ob.solver, ob.seconds = "failed", model, solver, secs
+                ob.info = "invariant conjunct refuted (dropped for the re-proof attempt)"
+                res.obligations.append(ob)
+        else:
+            res.detail = "proof re-established after dropping refuted invariant conjuncts: " + ", ".join(d[0].split("/", 1)[1] for d in dropped)
+    return res
 
 
 def verify(qualnames, contracts_mod: str, workers=None):
     """Verify the given functions (contracts come from module `contracts_mod` exposing REGISTRY, SPECFUNS)."""
     workers = workers or min(14, os.cpu_count() or 4)
-    results: dict[str, FuncResult] = {}
-    alljobs = []
     if len(qualnames) == 1 or workers == 1:
-        outs = [_gen_worker((q, contracts_mod)) for q in qualnames]
+        outs = [_verify_one((q, contracts_mod)) for q in qualnames]
     else:
-        with ProcessPoolExecutor(max_workers=workers) as ex:
-            outs = list(ex.map(_gen_worker, [(q, contracts_mod) for q in qualnames]))
-    for res, jobs in outs:
-        results[res.qualname] = res
-        alljobs.extend(jobs)
-    verdicts = solve.discharge(alljobs, workers)
-    smt = dict(alljobs)
-    for q, res in results.items():
-        for ob in res.obligations:
-            vs = [(k, verdicts[k]) for k in verdicts if k[0] == q and k[1] == ob.oid]
-            ob.seconds = sum(v[2] for _, v in vs)
-            if ob.kind == "COVER":
-                ob.verdict = "failed"  # a COVER obligation is only ever emitted when the cover failed
-                continue
-            if any(v[0] == "sat" for _, v in vs):
-                ob.verdict = "failed"
-                k, v = next((k, v) for k, v in vs if v[0] == "sat")
-                ob.model, ob.solver, ob.smt2 = v[3], v[1], smt[k]
-            elif all(v[0] == "unsat" for _, v in vs):
-                ob.verdict = "discharged"
-                ob.solver = ",".join(sorted({v[1] for _, v in vs})) or "trivial"
-            else:
-                ob.verdict = "undecided"
-                ob.solver = "z3+cvc5"
-    return results
+        with ProcessPoolExecutor(max_workers=min(workers, len(qualnames))) as ex:
+            outs = list(ex.map(_verify_one, [(q, contracts_mod) for q in qualnames]))
+    return {r.qualname: r for r in outs}
 
 
 def summarize(results) -> dict:
